@@ -22,9 +22,19 @@
    ([Done h r] at event t = "h's return with result r is enabled from t on and not before").
 
    Concurrency: N callers and the reader = one list of events (any interleaving of [Start],
-   [Recv], [Resume]).  Registration and write of a request are one event: between them the caller
-   touches nothing shared, and an acknowledgement that slips in between is buffered in the
-   caller's channel, which the caller reads only after the write. *)
+   [Recv], [Resume], [Cancel]).  [Start] = register-THEN-write, atomic with respect to the reader:
+   the waiter is registered under sig.mu BEFORE c.write(pkt) (publish.go:147-165,
+   subscribe.go:78-84, unsubscribe.go:54-60; PUBREL: publish.go:200-207), and the broker cannot
+   answer a request of which no byte has left. So whenever the reader dispatches the
+   acknowledgement — with any delay, zero included, i.e. even before Transport.Write has returned
+   to the caller — the waiter is already there: the earliest possible position of the own
+   acknowledgement in a history is directly after the [Start] (theorem
+   C07_ack_right_after_write_completes says it completes the request there). Between registration
+   and the end of the write the caller touches nothing shared; an acknowledgement processed in
+   between is buffered in the caller's private channel, which the caller reads only after the
+   write. (A client that registered AFTER the write would need two events, write and register,
+   with the acknowledgement possibly in between and dropped; the correspondence family
+   "zero-delay answers" tells the two apart.) *)
 From MQ Require Import Base.
 Open Scope N_scope.
 
